@@ -114,6 +114,8 @@ func (cln *Client) Connect(uri string, msg *message.ConnectMessage) (err error) 
 		client: true,
 		conn:   conn,
 
+		stopped: make(chan struct{}),
+
 		keepAlive:      int(msg.KeepAlive()),
 		connectTimeout: cln.ConnectTimeout,
 		ackTimeout:     cln.AckTimeout,
@@ -197,6 +199,8 @@ func (cln *Client) ConnectTLS(uri string, msg *message.ConnectMessage, cfg *tls.
 		client: true,
 		conn:   conn,
 
+		stopped: make(chan struct{}),
+
 		keepAlive:      int(msg.KeepAlive()),
 		connectTimeout: cln.ConnectTimeout,
 		ackTimeout:     cln.AckTimeout,
@@ -279,6 +283,13 @@ func (cln *Client) Disconnect() {
 	}
 
 	cln.svc.stop()
+
+	// The connection may have been lost already, and the teardown be under way in one
+	// of the service's own goroutines: stop() returns at once then. Wait for the
+	// teardown to finish, so that the client can be connected again afterwards.
+	if cln.svc.stopped != nil {
+		<-cln.svc.stopped
+	}
 }
 
 func (cln *Client) getSession(svc *service, req *message.ConnectMessage, _ *message.ConnackMessage) error {
